@@ -109,6 +109,14 @@ def query_devs(gt, wps, c, o, start):
         d = abs(((p.azimuth - az_here) + 180.0) % 360.0 - 180.0)
         if d > 1e-6:
             devs.append(('azimuth-direction', f'{what}: azimuth {p.azimuth}; direction to the next waypoint {az_here % 360.0}'))
+    elif o['off'] > c['legs'][k - 1]:
+        # GroundTrack.tla Direction: beyond the last way point the track goes on along the same great circle, AWAY from the
+        # last way point.  The direction of that great circle is admitted as seen from the position itself or as seen
+        # from the last way point (what the code reports; the two differ by the convergence over the overstep, < 1 deg here)
+        fwd, back, _ = GEOD.inv(w1[0], w1[1], p.location.longitude, p.location.latitude)
+        d = min(abs(((p.azimuth - (back + 180.0)) + 180.0) % 360.0 - 180.0), abs(((p.azimuth - fwd) + 180.0) % 360.0 - 180.0))
+        if d > 1e-6:
+            devs.append(('overstep:azimuth', f'{what}: azimuth {p.azimuth} beyond the end of the track; the great circle goes on in direction {(back + 180.0) % 360.0} there ({fwd % 360.0} at the last way point)'))
     return devs
 
 
